@@ -116,10 +116,15 @@ Definition b_label (b : body) := let 'Body l _ _ := b in l.
 Definition b_ops (b : body) := let 'Body _ o _ := b in o.
 Definition b_out (b : body) := let 'Body _ _ o := b in o.
 
+(* where an add_callback call comes from, as BaseAsyncIOLoop.add_callback sees it:
+   asyncio.get_running_loop() is this IOLoop's asyncio loop / is some OTHER running loop (the caller's thread runs its
+   own event loop) / raises RuntimeError (plain thread, no running loop) *)
+Inductive caller := CSameLoop | COtherLoop | CNoLoop.
+
 Inductive c38_input :=
 | IProg (b : body)
 | ISync (b : body) (timeout : option Z)
-| IThreads (n m : nat).
+| IThreads (n m : nat) (c : caller).   (* n threads x m add_callback calls on an IDLE loop; c: what the caller threads run *)
 
 (* ------------------------------------------------------------------ *)
 (* the event trace (what the harness records on the real loop) *)
@@ -485,3 +490,30 @@ Definition of_thread (t : nat) (l : list (nat * nat)) : list nat :=
 (* one canonical interleaving: round-robin *)
 Definition round_robin (n m : nat) : list (nat * nat) :=
   flat_map (fun k => map (fun t => (t, k)) (seq 0 n)) (seq 0 m).
+
+(* ------------------------------------------------------------------ *)
+(* add_callback onto a loop that is idle in select() with no timers.
+   BaseAsyncIOLoop.add_callback: `if asyncio.get_running_loop() is self.asyncio_loop: call_soon
+   else (another loop is running, or none: RuntimeError): call_soon_threadsafe`.
+   call_soon only appends to the ready deque; call_soon_threadsafe appends AND writes to the self-pipe, which is
+   the only thing that makes a loop blocked in select() (no timers, no I/O) run again. *)
+Inductive sched_path := PCallSoon | PThreadsafe.
+Definition add_callback_path (c : caller) : sched_path :=
+  match c with CSameLoop => PCallSoon | COtherLoop | CNoLoop => PThreadsafe end.
+
+Record xloop := mkX { x_ready : list (nat * nat); x_woken : bool; x_ran : list (nat * nat) }.
+Definition x_idle : xloop := mkX [] false [].
+
+Definition x_add_via (p : sched_path) (a : nat * nat) (l : xloop) : xloop :=
+  match p with
+  | PCallSoon => mkX (x_ready l ++ [a]) (x_woken l) (x_ran l)
+  | PThreadsafe => mkX (x_ready l ++ [a]) true (x_ran l)
+  end.
+Definition x_add (c : caller) (a : nat * nat) (l : xloop) : xloop := x_add_via (add_callback_path c) a l.
+
+(* the sleeping loop: if (and only if) it was woken it runs everything that is ready, then sleeps again *)
+Definition x_settle (l : xloop) : xloop :=
+  if x_woken l then mkX [] false (x_ran l ++ x_ready l) else l.
+
+Definition x_deliver (calls : list (caller * (nat * nat))) : xloop :=
+  x_settle (fold_left (fun l ca => x_add (fst ca) (snd ca) l) calls x_idle).
